@@ -914,6 +914,12 @@ def totality_cases(tier):
         ("anonymous-in-declaration-init", P + A1 + "template Main() { signal input x; signal output y; var v = A()(x); signal s <== A()(x); y <== x + v + s; }\ncomponent main = Main();\n", []),
         ("anonymous-in-log-nested", P + A1 + "template Main() { signal input x; signal output y; log(1 + A()(x)); y <== x; }\ncomponent main = Main();\n", []),
         ("anonymous-in-return-of-function", P + A1 + "function f(a) { return A()(a); }\ntemplate Main() { signal input x; signal output y; y <== x + f(1); }\ncomponent main = Main();\n", []),
+        ("tuple-in-tuple-element-infix", T("signal z;\n(y, z) <== (x, x + (1, 2));"), []),
+        ("tuple-in-tuple-element-ternary", T("signal z;\n(y, z) <== (x, x == 0 ? (1, 2) : 3);"), []),
+        ("tuple-in-tuple-element-call-argument", P + "function g(a) { return a; }\ntemplate Main() { signal input x; signal output y; signal z; (y, z) <== (x, g((1, 2))); }\ncomponent main = Main();\n", []),
+        ("tuple-in-tuple-element-inline-array", T("var a[2]; var b; (a, b) = ([(1, 2), 3], 4);\ny <== x;"), []),
+        ("tuple-in-destination-tuple-index", T("signal z[2];\n(y, z[(0, 1)]) <== (x, x);"), []),
+        ("tuple-in-tuple-element-prefix", T("signal z;\n(y, z) <== (x, -(1, 2));"), []),
         ("tuple-in-component-index", P + A1 + "template Main() { signal input x; signal output y; component c[2]; c[0] = A(); c[1] = A(); c[(0, 1)].in <== x; c[1].in <== x; y <== c[0].out; }\ncomponent main = Main();\n", []),
         ("tuple-in-template-argument", P + "template B(n) { signal input in; signal output out; out <== in * n; }\ntemplate Main() { signal input x; signal output y; component c = B((1, 2)); c.in <== x; y <== c.out; }\ncomponent main = Main();\n", []),
         ("tuple-in-for-step", T("var v = 0; for (var i = 0; i < 2; i += (1, 2)) { v += 1; }\ny <== x + v;"), []),
@@ -1060,7 +1066,7 @@ def suite_totality(exe, tier, seed):
         shutil.rmtree(d, ignore_errors=True)
     return {"unit": "e2e-totality", "evaluations": evals, "distinct_nontrivial": nontrivial, "exhaustive": False,
             "rule": "the real CLI on grammar-valid but unusual programs: it terminates within 60 s with exit status 0 or 1, prints its summary line, and neither panics nor overflows its stack",
-            "bound": "templates with Circomlib's names and every arity 0..3 under the curves; 27 structural oddities, 57 grammar-valid programs with semantic errors (undeclared / duplicate names, wrong arities, anonymous components and tuples in every unusual place, misplaced constructs) 108 assignments whose left-hand side is not a variable (9 expressions x 6 operators, in a template and in a function), 15 size / nesting stress shapes (5000-element array literals, 500 nested blocks, 300-factor products, 1000 signals, 100 components, mutual recursion), 26 shapes aimed at the individual passes and options (divisions and comparisons of signals, LessThan / Num2Bits wiring, component matrices, functions without return, all compound operators, 200 findings, --allow / --level / -L oddities) and 21 lexer- and byte-level inputs (long and non-ASCII string literals in log, hex prefix without digits, empty file, invalid UTF-8, NUL bytes, BOM, unbalanced brackets, 200 000-character lines, non-ASCII text at error positions; empty bodies, deep nesting of ifs / loops / parentheses / ternaries, 2000-term sums, 200-fold unary chains, 400-digit literals in shifts and powers, division by constant zero, zero-sized arrays, 300 templates, 3000-character identifiers, custom templates)",
+            "bound": "templates with Circomlib's names and every arity 0..3 under the curves; 27 structural oddities, 63 grammar-valid programs with semantic errors (undeclared / duplicate names, wrong arities, anonymous components and tuples in every unusual place, misplaced constructs) 108 assignments whose left-hand side is not a variable (9 expressions x 6 operators, in a template and in a function), 15 size / nesting stress shapes (5000-element array literals, 500 nested blocks, 300-factor products, 1000 signals, 100 components, mutual recursion), 26 shapes aimed at the individual passes and options (divisions and comparisons of signals, LessThan / Num2Bits wiring, component matrices, functions without return, all compound operators, 200 findings, --allow / --level / -L oddities) and 21 lexer- and byte-level inputs (long and non-ASCII string literals in log, hex prefix without digits, empty file, invalid UTF-8, NUL bytes, BOM, unbalanced brackets, 200 000-character lines, non-ASCII text at error positions; empty bodies, deep nesting of ifs / loops / parentheses / ternaries, 2000-term sums, 200-fold unary chains, 400-digit literals in shifts and powers, division by constant zero, zero-sized arrays, 300 templates, 3000-character identifiers, custom templates)",
             "samples": samples, "violations": viol}
 
 
@@ -1634,7 +1640,7 @@ def suite_scopes(exe, tier, seed):
     d = tempfile.mkdtemp(prefix="vx-e2e-")
     def add(ob, inp, what):
         if len(viol) < 20 and not any(v["obligation"] == f"e2e|scopes|{ob}" for v in viol):
-            viol.append({"unit": "e2e", "fn": "ensure_unique_variables / SSA renaming (whole pipeline)", "obligation": f"e2e|scopes|{ob}", "props": ["C10", "C14"] if ob.startswith("ssa:") else ["C10"],
+            viol.append({"unit": "e2e", "fn": "ensure_unique_variables / SSA renaming (whole pipeline)", "obligation": f"e2e|scopes|{ob}", "props": ["C10", "C14"] if (ob.startswith("ssa:") or ob == "siblings:shadowed-in-loop-body") else ["C10"],
                          "input": inp, "what": what, "replay": "python3 run/e2e.py scopes quick 0"})
     try:
         # ---- repeated parameter names are reported (CS0002), wherever the repetition stands, for functions and templates
@@ -1662,13 +1668,21 @@ def suite_scopes(exe, tier, seed):
         for (sname, body, code, line) in [
                 ("components", "  if (n == 0) {\n    component c = D();\n    c.a <== in;\n    out <== c.b + c.aux;\n  } else {\n    component c = D();\n    c.a <== in;\n    out <== c.b;\n  }", "CS0018", 11),
                 ("components-nested", "  component c = D();\n  c.a <== in;\n  out <== c.b + c.aux;\n  if (n == 0) {\n    component c = D();\n    c.a <== in;\n    log(c.b);\n  }", "CS0018", 10),
-                ("variable-and-signal", "  if (n == 0) {\n    var t = 5;\n    out <== in;\n  } else {\n    signal t;\n    out <== in;\n  }", "CS0006", 10)]:
+                ("variable-and-signal", "  if (n == 0) {\n    var t = 5;\n    out <== in;\n  } else {\n    signal t;\n    out <== in;\n  }", "CS0006", 10),
+                # an outer variable updated in a loop whose body also holds a block with a shadowing variable that is updated too:
+                # the outer update is read by the next iteration and by the use after the loop (nothing may call it unread or without effect)
+                ("shadowed-in-loop-body", "  var acc = 0;\n  for (var i = 0; i < n; i++) {\n    acc += i;\n    if (i > 1) {\n      var acc = i;\n      acc += 1;\n      log(acc);\n    }\n  }\n  out <== in * acc;", "!CS0006 CS0008", 8)]:
             path = os.path.join(d, "sib.circom")
             open(path, "w").write(SIB % body)
             rc, out, err = run_cli(exe, ["-v", path], d)
             evals += 1; nontrivial += 1
             if rc is None or rc not in (0, 1) or "panicked" in err:
                 add("run", {"case": sname}, f"siblings/{sname}: the tool aborted or hung (exit {rc})")
+            elif code.startswith("!"):
+                hit = [(c, ln) for (c, ln, _) in coded_findings(out) if c in code[1:].split() and ln == line]
+                if hit:
+                    add(f"siblings:{sname}", {"case": sname, "source": SIB % body},
+                        f"siblings/{sname}: finding {hit[0][0]} on line {line} — the update of the OUTER variable there is read by the next iteration and after the loop; the shadowing declaration in the nested block is another variable:\n{body}")
             elif not any(c == code and ln == line for (c, ln, _) in coded_findings(out)):
                 add(f"siblings:{sname}", {"case": sname, "source": SIB % body},
                     f"siblings/{sname}: no {code} finding on line {line} — the second declaration of the name is treated as if it were the first one (findings: {sorted((c, ln) for (c, ln, _) in coded_findings(out))}):\n{body}")
@@ -2460,6 +2474,48 @@ def suite_degrees(exe, tier, seed):
     return e2e_degrees.suite(exe, tier, seed, run_cli)
 
 
+def suite_timeboxreal(exe, tier, seed):
+    """C20 / C01 (BOUNDED, thorough tier only): the REAL wall-clock time box. A template with 6000 straight-line assignments
+    makes both propagation loops run into their 10 s limit in a release build; the tool must still complete normally."""
+    viol, samples = [], []
+    evals = nontrivial = 0
+    if tier != "thorough":
+        return {"unit": "e2e-timeboxreal", "evaluations": 0, "distinct_nontrivial": 0, "exhaustive": False,
+                "rule": "thorough tier only (each run takes about 30 s): the real 10 s time box on a 6000-statement template", "bound": "not run in the quick tier", "samples": [], "violations": []}
+    d = tempfile.mkdtemp(prefix="vx-e2e-")
+    try:
+        body = "".join(f"  x = x + {k};\n" for k in range(6000))
+        path = os.path.join(d, "slow.circom")
+        open(path, "w").write("pragma circom 2.0.0;\ntemplate T() {\n  signal input a;\n  signal output b;\n  var x = 0;\n" + body + "  b <== a + x;\n}\ncomponent main = T();\n")
+        env = dict(os.environ, RUST_LOG="debug")
+        t0 = time.time()
+        try:
+            p = subprocess.run([exe, path], cwd=d, capture_output=True, text=True, timeout=300, env=env, preexec_fn=_cli_limits)
+            rc, out, err = p.returncode, p.stdout, p.stderr
+        except subprocess.TimeoutExpired:
+            rc, out, err = None, "", ""
+        evals += 1
+        fired = (out + err).count("within allotted time")
+        nontrivial += 1 if fired else 0
+        samples.append({"case": "6000-assignments", "exit": rc, "time_boxes_fired": fired, "seconds": round(time.time() - t0, 1)})
+        what = None
+        if rc is None:
+            what = "the tool did not terminate within 300 s"
+        elif "panicked" in err or rc not in (0, 1):
+            first = next((l for l in err.split("\n") if "panicked" in l or "overflow" in l), err[-200:])
+            what = f"the tool aborted (exit {rc}) after {fired} time box(es) had fired: {first.strip()[:200]}"
+        elif "circomspect:" not in out:
+            what = f"no summary line (exit {rc})"
+        if what:
+            viol.append({"unit": "e2e", "fn": "Cfg::propagate_values / propagate_degrees (wall-clock time box)", "obligation": "e2e|timeboxreal|completes", "props": ["C20", "C01"],
+                         "input": {"case": "6000 straight-line assignments"}, "what": f"a template with 6000 straight-line assignments: {what}", "replay": "python3 run/e2e.py timeboxreal thorough 0"})
+    finally:
+        shutil.rmtree(d, ignore_errors=True)
+    return {"unit": "e2e-timeboxreal", "evaluations": evals, "distinct_nontrivial": nontrivial, "exhaustive": False,
+            "rule": "the real CLI (release build) on a template with 6000 straight-line assignments, on which value and degree propagation both run into their real 10 s wall-clock limit: the tool completes normally (exit 0 or 1, summary line, no panic); non-trivial = at least one time box fired (read from the debug log)",
+            "bound": "one template, one run (about 30 s); thorough tier only", "samples": samples, "violations": viol}
+
+
 def main():
     suite, tier, seed = sys.argv[1], (sys.argv[2] if len(sys.argv) > 2 else "quick"), int(sys.argv[3]) if len(sys.argv) > 3 else 0
     try:
@@ -2467,7 +2523,7 @@ def main():
     except Exception as e:
         print(json.dumps({"error": str(e)}))
         return
-    r = {"tuples": suite_tuples, "output": suite_output, "values": suite_values, "curves": suite_curves, "includes": suite_includes, "totality": suite_totality, "positions": suite_positions, "sigassign": suite_sigassign, "scopes": suite_scopes, "determinism": suite_determinism, "failures": suite_failures, "deadvalues": suite_deadvalues, "degrees": suite_degrees, "values-random": suite_values_random}[suite](exe, tier, seed)
+    r = {"tuples": suite_tuples, "output": suite_output, "values": suite_values, "curves": suite_curves, "includes": suite_includes, "totality": suite_totality, "positions": suite_positions, "sigassign": suite_sigassign, "scopes": suite_scopes, "determinism": suite_determinism, "failures": suite_failures, "deadvalues": suite_deadvalues, "degrees": suite_degrees, "values-random": suite_values_random, "timeboxreal": suite_timeboxreal}[suite](exe, tier, seed)
     print(json.dumps(r))
 
 if __name__ == "__main__":
